@@ -49,7 +49,7 @@ func c05Decls(rt *rapid.T, pool *gen.Pool) []*refmodel.Decl {
 	}
 	refCol := func(d *refmodel.Decl) string {
 		if d.Event != nil {
-			return d.Event.Inputs[0].Column // an address column ("who" or "a")
+			return d.Event.Selected()[0].Column // an address column ("who" or "a", possibly a struct component)
 		}
 		return d.Block[0].Column
 	}
@@ -80,11 +80,17 @@ func c05Decls(rt *rapid.T, pool *gen.Pool) []*refmodel.Decl {
 				{Kind: refmodel.KAddress, Name: "a", Indexed: rapid.Bool().Draw(rt, "aidx"), Column: "a"},
 				{Kind: refmodel.KAddress, Name: "b", Indexed: false, Column: "b"},
 				{Kind: refmodel.KUint, Bits: 256, Name: "v", Column: "v"}}}
+			refInputs := []*refmodel.Type{ev.Inputs[0], ev.Inputs[1]}
+			if rapid.IntRange(0, 2).Draw(rt, "nestedref") == 0 {
+				// the referencing inputs are components of a struct input
+				ev.Inputs[0].Indexed = false
+				ev.Inputs = []*refmodel.Type{{Kind: refmodel.KTuple, Name: "t", Fields: []*refmodel.Type{ev.Inputs[0], ev.Inputs[1]}}, ev.Inputs[2]}
+			}
 			d = &refmodel.Decl{Name: name, Enabled: true, Table: name, Event: ev, Filters: map[*refmodel.Type]*refmodel.Filter{}}
 			d.Columns = []refmodel.Column{{Name: "a", Type: "bytea"}, {Name: "b", Type: "bytea"}, {Name: "v", Type: "numeric"}, col("block_time")}
 			d.Block = []refmodel.BlockField{bf("block_time")}
 			for j, r := range perm {
-				d.Filters[ev.Inputs[j]] = &refmodel.Filter{Op: op, Ref: &refmodel.Ref{Integration: r.Name, Column: refCol(r)}}
+				d.Filters[refInputs[j]] = &refmodel.Filter{Op: op, Ref: &refmodel.Ref{Integration: r.Name, Column: refCol(r)}}
 			}
 		} else {
 			d = &refmodel.Decl{Name: name, Enabled: true, Table: name, Filters: map[*refmodel.Type]*refmodel.Filter{}}
